@@ -114,6 +114,19 @@ def name_sites():
         t, u = P.Table(N("t")), P.Table(N("t~"))
         return Qc.from_(t).join(u).on(t[N("k")] == u[N("k")]).select(t[N("c")], u[N("c")])
 
+    # particular names that mean something when written bare: a COLUMN called "*", "NULL", "DEFAULT", "?" is still one quoted identifier
+    for special in ("*", "NULL", "DEFAULT", "?", "%s", "1"):
+        @site("column-named-%s" % special)
+        def _(N, V, Qc, special=special):
+            t = _t(N)
+            c = t.field(N("=" + special))
+            return Qc.from_(t).select(c, t[N("d")]).where(c > 1).groupby(c).orderby(c)
+
+        @site("update-column-named-%s" % special)
+        def _(N, V, Qc, special=special):
+            t = _t(N)
+            return Qc.update(t).set(t.field(N("=" + special)), 2).where(t.field(N("=" + special)) == 1)
+
     @site("cte-definition-and-reference")
     def _(N, V, Qc):
         t = _t(N)
